@@ -47,6 +47,7 @@ type c16Frame struct {
 	up      *c16Frame
 	info    *types.Info
 	results []*c16Cell // named results
+	nres    int        // number of results of the function being evaluated
 	defers  []func()
 }
 
